@@ -53,7 +53,7 @@ TRestoreLines == /\ (Cur("Restore") \/ (Cur("UpdateOffsets") /\ E.p = "")) /\ ~u
 TRestart == /\ Cur("Restart") /\ Restart /\ up' = E.ok
             /\ (E.ok => (mem'.next = E.next /\ StMatch(E.st)))
 TGrid == /\ Cur("Grid") /\ up /\ UNCHANGED vars
-         /\ E.hw = storeNext /\ E.next = mem.next
+         /\ E.hw = storeNext /\ E.lo = storeNext /\ E.next = mem.next
          /\ \A i \in DOMAIN E.reads :
               LET r == E.reads[i]  m == ReadSpec(r.o, r.mb) IN
                 /\ m.kind = r.kind
